@@ -276,4 +276,4 @@ def _obligations():
 
 
 def obligations():
-    return _obligations() + [effects_obligation("C14")]
+    return _obligations() + [labels_obligation("C14"), effects_obligation("C14")]
